@@ -197,6 +197,30 @@ def tdvp_case(ctx, idx, rng, long=False):
         v3 = refs.dense_state(psi.A)
         ctx.close('repeated-call.return-one', abs(float(r3) - 1), TOL, 'second call on the evolved (normalised) state must return 1', detail)
         ctx.close('repeated-call.energy', abs(float(np.real(np.vdot(v3, mH @ v3))) - E0), TOL * nH, 'energy drift on a repeated call', detail)
+    elif idx % 4 == 2 and L >= 2:
+        # history: the evolved state is EDITED in place between two calls in a way that keeps the shape and the Frobenius norm of the edited tensor but breaks
+        # its canonical form (two entries rescaled against each other): the next call must start from what the state IS now -- its return value is the norm of
+        # the edited state, norm one and the energy of the edited, normalised state are conserved
+        k = int(rng.integers(1, L))
+        T = psi.A[k]
+        nzi = np.argwhere(np.abs(T) > 1e-3)
+        if len(nzi) >= 2:
+            a_, b_ = nzi[int(rng.integers(0, len(nzi)))], nzi[int(rng.integers(0, len(nzi)))]
+            if tuple(a_) != tuple(b_):
+                x, y = T[tuple(a_)], T[tuple(b_)]
+                cfac = 0.5
+                y2 = np.sqrt(max((abs(x) ** 2) * (1 - cfac ** 2) + abs(y) ** 2, 0.0)) / abs(y)
+                T[tuple(a_)] = x * cfac
+                T[tuple(b_)] = y * y2
+                v_e = refs.dense_state(psi.A)
+                n_e = float(np.linalg.norm(v_e))
+                if n_e > 1e-6:
+                    E_e = float(np.real(np.vdot(v_e, mH @ v_e))) / n_e ** 2
+                    r4 = fn(H, psi, dt, 1, numiter_lanczos=numiter)
+                    v4 = refs.dense_state(psi.A)
+                    ctx.close('edited-state.return-is-its-norm', abs(float(r4) - n_e), TOL * max(1.0, n_e), 'call on an edited state must return the norm of the edited state', detail)
+                    ctx.close('edited-state.norm-one', abs(float(np.linalg.norm(v4)) - 1), TOL, 'state not normalised after evolving an edited state', detail)
+                    ctx.close('edited-state.energy', abs(float(np.real(np.vdot(v4, mH @ v4))) - E_e), TOL * nH, 'energy of the edited (normalised) state not conserved', detail)
 
 
 def long_run_case(ctx, idx, rng):
